@@ -278,6 +278,10 @@ func init() {
 		if len(rules) == 2 && rules[0].pat.bad == "" && rules[0].pat == rules[1].pat && rules[0].sel.bad == "" && rules[1].sel.bad == "" {
 			note("duplicate template and method")
 		}
+		if len(rules) == 2 && rules[0].pat.bad == "" && rules[1].pat.bad == "" && rules[0].pat.path == rules[1].pat.path && rules[0].addl == 1 && rules[1].addl == 1 && rules[0].sel.bad == "" && rules[1].sel.bad == "" {
+			// (two rules on one path, e.g. GET and the kind "*": their additional bindings, derived from the path, coincide)
+			note("duplicate template and method")
+		}
 		switch svcMode {
 		case 2, 4:
 			note("method registered twice")
